@@ -380,8 +380,35 @@ pub fn run(tier: Tier, _replay: Option<Value>) -> ! {
         }
     }
     rep.set("real_binary_runs", pr.len() as u64);
+    // ---- (h) start-up: every variable the shell reads from its environment, set to every boundary value
+    {
+        const ENV_VARS: &[&str] = &["SHLVL", "HISTSIZE", "HISTFILESIZE", "HISTFILE", "COLUMNS", "LINES", "OPTIND", "PPID", "RANDOM", "SECONDS", "IFS", "PATH", "HOME", "PWD", "OLDPWD", "PS1", "PS4", "TMOUT", "LANG", "LC_ALL", "BASHOPTS", "SHELLOPTS", "POSIXLY_CORRECT", "BASH_ENV", "ENV", "UID", "EUID", "LINENO", "BASH_XTRACEFD", "FUNCNEST", "TMPDIR", "HOSTNAME", "MAILCHECK", "INPUTRC", "TERM", "BASH_COMPAT", "EPOCHSECONDS", "SRANDOM"];
+        let brush = procs::brush_path();
+        let mut specs = vec![];
+        let mut desc = vec![];
+        for var in ENV_VARS {
+            for (vi, val) in corpus::BOUNDARY.iter().enumerate() {
+                let val = if *val == "$'\\0'" { "\u{1}" } else { val };
+                let mut sp = bash::spec_dash_c(&brush, "echo ok; echo $SHLVL $OPTIND >/dev/null; x=$((1+1))", 4_000);
+                sp.env.push((var.to_string(), val.to_string()));
+                specs.push(sp);
+                desc.push(format!("{var}={val:?} brush -c 'echo ok; …'  [{}]", corpus::val_name(vi)));
+            }
+        }
+        let er = procs::run_many(&specs, bash::procs_par());
+        for (k, o) in er.iter().enumerate() {
+            rep.evaluations += 1;
+            let err = o.err_str();
+            let bad = o.timed_out || o.signal.is_some() || o.status == 101 || o.status == 134 || err.contains("panicked at") || err.contains("Well, this is embarrassing");
+            if bad {
+                let var = ENV_VARS[k / corpus::BOUNDARY.len()];
+                rep.fail(Failure { case: desc[k].clone(), tags: vec!["env-at-startup".into(), format!("env:{var}"), if o.timed_out { "timeout".into() } else { "binary-crash".into() }], expected: "exit status, no panic".into(), observed: format!("status {} signal {:?} timed_out {} stderr {}", o.status, o.signal, o.timed_out, crate::engine::report::truncate(&err, 200)), oracle: "real-binary".into() });
+            }
+        }
+        rep.set("env_startup_runs", er.len() as u64);
+    }
     rep.rule = format!(
-        "(a) all strings over the {}-symbol alphabet with <= {max_len} symbols through tokenizer (3 option sets), program parser, word, brace, arithmetic, pattern, prompt, parameter and here-doc parsers; (b)-(d) {} construct templates x {} boundary values (single{}), token mutations (deviation bound {}), nestings of {} constructs and ordered pairs to depth 64 — parsed, executed in-process via run_script / run_dash_c_command, and (templates, nestings) by the real binary on file/-c/stdin; (f) completion at every cursor and prompt expansion; (g) all pairs of 16 self-/cross-referencing values for the names a, b under plain/integer/array/nameref set-ups read through 16 arithmetic, subscript and indirection entry points, and all pairs of 7 alias bodies; non-trivial = inputs that parse / scripts bash finishes",
+        "(a) all strings over the {}-symbol alphabet with <= {max_len} symbols through tokenizer (3 option sets), program parser, word, brace, arithmetic, pattern, prompt, parameter and here-doc parsers; (b)-(d) {} construct templates x {} boundary values (single{}), token mutations (deviation bound {}), nestings of {} constructs and ordered pairs to depth 64 — parsed, executed in-process via run_script / run_dash_c_command, and (templates, nestings) by the real binary on file/-c/stdin; (f) completion at every cursor and prompt expansion; (h) the real binary started with each of 38 environment variables set to each boundary value; (g) all pairs of 16 self-/cross-referencing values for the names a, b under plain/integer/array/nameref set-ups read through 16 arithmetic, subscript and indirection entry points, and all pairs of 7 alias bodies; non-trivial = inputs that parse / scripts bash finishes",
         SIGMA1.len(),
         corpus::TEMPLATES.len(),
         corpus::BOUNDARY.len() + 1,
